@@ -121,6 +121,8 @@ def leg_r(rep, work, spec, name, cfg, driver_factory, internal=(), nproc=NPROC, 
     g = Graph(dump + ".dot", obs_var=obs_var)
     os.unlink(dump + ".dot")
     t2 = time.time()
+    if kf_classify is not None or g.nondeterministic(internal):
+        nproc = 1  # successor sets: one walker discovers everything the implementation reaches (see walk.py, phase 2)
     st, samples, violations = walk_sharded(g, driver_factory, nproc=nproc, internal=internal,
                                            max_len=max_len, budget_s=budget_s, edge_filter=edge_filter)
     t3 = time.time()
